@@ -264,4 +264,15 @@ theorem gRun_seq {F : File} (hwf : WF F) : ∀ (ops : List Hts.Spec.Flat.Op) (r 
     rw [ih _ h.2]
     rfl
 
+/-- Run with the sequential blocks, an adaptive client's program is the client over the sequential reader. -/
+theorem client_seq {α : Type} {F : File} (hwf : WF F) (c : Client α) : ∀ (r : Reader), Tracks F r →
+    ((c.prog r).seq F (blkOf r.cur)).1 = c.run r := by
+  induction c with
+  | done a => intro r _; rfl
+  | op o k ih =>
+    intro r hr
+    have h := gStep_seq hwf hr o
+    simp only [Client.prog, Client.run, Prog.seq_bind, h.1]
+    exact ih _ _ _ h.2
+
 end Hts.Model.ReadAhead
